@@ -227,8 +227,10 @@ var faceChoices = []uint64{0, 1, 255, 256, 300, 65535, 65536, 0xffffffff, 0x1000
 func tlLen(n int) int { return enc.TLNum(n).EncodingLength() }
 
 func gen(g *common.Gen) {
+	// consecutive VERIF_SEEDs give splitmix streams shifted by one draw; spread them out
+	root := common.NewRand((common.Seed() + 1) * 0xD1342543DE82EF95)
 	for h := 0; h < g.N; h++ {
-		r := g.R.Fork()
+		r := root.Fork()
 		mtu := r.Range(128, 400)
 		if r.Chance(1, 4) {
 			mtu = common.Pick(r, mtuBoundary)
